@@ -118,12 +118,18 @@ pub fn judge(p: &Program) -> Outcome {
                             Some(hash_of(&yaml)),
                         )
                     }
-                    Err(msg) => Outcome::bad(
-                        "differs",
-                        format!("document differs | {}", c02::diff_class(&msg)),
-                        msg,
-                        case(),
-                    ),
+                    Err(msg) => {
+                        if !refsem::last_notes().is_empty() {
+                            // Collisions of paths / @names are C02's business, not recursion.
+                            return Outcome::ok("program with a path or @name collision (see C02)", None);
+                        }
+                        Outcome::bad(
+                            "differs",
+                            format!("document differs | {}", c02::diff_class(&msg)),
+                            msg,
+                            case(),
+                        )
+                    }
                 },
                 Err(Stop::Unspecified(_)) => Outcome::ok("unspecified by the language: crash check only", None),
                 Err(Stop::Stuck(w)) => Outcome::ok(
